@@ -139,7 +139,7 @@ def case(draw):
     return {
         "nt": nt, "nf": nf, "t0": t0, "dt": dt, "f0": f0, "df": df, "order": order, "contents": contents,
         "geoms": geoms, "vmode": vmode, "values": vals, "fill": fill, "dtype": dtype,
-        "all_touched": draw(st.booleans()), "tuple_values": draw(st.booleans()),
+        "all_touched": draw(st.booleans()), "tuple_values": draw(st.booleans()), "f_spacing": draw(st.sampled_from(["even", "even", "uneven"])),
     }
 
 
@@ -164,6 +164,9 @@ def template(spec, contents):
     nt, nf = spec["nt"], spec["nf"]
     tc = np.array([spec["t0"] + i * spec["dt"] for i in range(nt)])
     fc = np.array([spec["f0"] + j * spec["df"] for j in range(nf)])
+    if spec.get("f_spacing") == "uneven":
+        # bins that are not evenly spaced (octave bands, custom band edges): the raster follows the template's coordinates
+        fc = np.array([spec["f0"] + spec["df"] * (j + 0.5 * (j % 3) + 0.25 * j * j) for j in range(nf)])
     if contents == "zeros":
         data = np.zeros((nt, nf))
     elif contents == "ramp":
@@ -376,7 +379,7 @@ def check(spec, ctx):
         dec = fine.isel(time=slice(None, None, 2), frequency=slice(None, None, 2))
     except Exception:
         dec = None
-    if dec is not None and np.array_equal(dec.coords["time"].values, tc) and np.array_equal(dec.coords["frequency"].values, fc):
+    if dec is not None and spec.get("f_spacing", "even") == "even" and np.array_equal(dec.coords["time"].values, tc) and np.array_equal(dec.coords["frequency"].values, fc):
         ctx.label("decimated_template")
         if spec["order"] == "ft":
             dec = dec.transpose("frequency", "time")
